@@ -400,7 +400,7 @@ fn gen(r: &mut Rng, cols: &[(String, Ty)], t: Ty, d: u32, like: bool) -> E {
         Ty::Bool => {
             let ot = *r.pick(&[Ty::I64, Ty::I64, Ty::Str, Ty::Bool]);
             match r.below(if like { 15 } else { 14 }) {
-                0 | 1 => E::Cmp(r.pick(&CMPS), bx(gen(r, cols, ot, d - 1, like)), bx(gen(r, cols, ot, d - 1, like))),
+                0 | 1 => E::Cmp(*r.pick(&CMPS), bx(gen(r, cols, ot, d - 1, like)), bx(gen(r, cols, ot, d - 1, like))),
                 2 | 3 => E::And(bx(gen(r, cols, t, d - 1, like)), bx(gen(r, cols, t, d - 1, like))),
                 4 | 5 => E::Or(bx(gen(r, cols, t, d - 1, like)), bx(gen(r, cols, t, d - 1, like))),
                 6 => E::Not(bx(gen(r, cols, t, d - 1, like))),
